@@ -584,6 +584,18 @@ func rulePipeline(r *Run, rule string, exec, single *ssa.Function, modality stri
 						fed = true
 					}
 				case *ssa.Extract:
+					// the collecting loop extracted into a method of the same search object: follow its returned list
+					if call, ok := x.Tuple.(*ssa.Call); ok {
+						if g := staticCallee(call.Common()); g != nil && g != single && g.Pkg == w.SPkg && g.Signature.Recv() != nil &&
+							types.Identical(g.Signature.Recv().Type(), exec.Signature.Recv().Type()) {
+							for _, ret := range returnsOf(g) {
+								if x.Index < len(ret.Results) {
+									visit(ret.Results[x.Index], depth+1)
+								}
+							}
+							r.Analysed(w.Name(g))
+						}
+					}
 					visit(x.Tuple, depth+1)
 				case *ssa.UnOp:
 					if a, ok := x.X.(*ssa.Alloc); ok {
